@@ -285,7 +285,7 @@ def _reaches_memory(v, depth=0):
 
 class Executor:
     def __init__(self, bodies, enums=None, cap=8, loop_bound=12, inline=None, summaries=None, havoc=None,
-                 max_paths=4000, timeout_ms=20000):
+                 max_paths=4000, timeout_ms=60000):
         self.bodies = bodies
         self.enums = dict(STD_ENUMS)
         if enums:
